@@ -3,6 +3,8 @@
 // uncommitted lines -> INITIAL line attributions).  Extracted as statement regions (rule R1).
 use vstd::prelude::*;
 use vstd::std_specs::iter::IteratorSpec;
+use std::collections::HashMap as StdHashMap;
+use std::collections::HashSet;
 verus! {
 
 //#include ../_shared/linerange_type.inc.rs
@@ -247,6 +249,248 @@ impl LineAttribution {
 //@         assert(uncommitted_line_attrs@.subrange(0, inp.len() as int) =~= pre.subrange(0, inp.len() as int));
 //@     }
 //@     uncommitted_line_attrs
+//@ }
+//#end
+
+// ---------------------------------------------------------------- vocabulary for the three-way split (region split_classify)
+/// (a, v) is recorded in the per-author map
+pub open spec fn map_mem(m: StdHashMap<String, Vec<u32>>, a: String, v: u32) -> bool { m@.contains_key(a) && m@[a]@.contains(v) }
+/// number of entries among the first n of s that are smaller than w
+pub open spec fn cb(s: Seq<u32>, n: int, w: int) -> int
+    decreases n
+{
+    if n <= 0 { 0 } else { cb(s, n - 1, w) + (if s[n - 1] < w { 1int } else { 0int }) }
+}
+/// number of unstaged lines strictly above working-tree line w: what is subtracted to obtain the commit line number
+pub open spec fn below(us: Seq<u32>, w: int) -> int { cb(us, us.len() as int, w) }
+pub open spec fn in_hunks(h: Option<&Vec<LineRange>>, c: int) -> bool { h is Some && ranges_have(h.unwrap()@, c) }
+/// line w of line attribution j has been processed when the first k attributions are done and attribution k is done up to (excluding) cur
+pub open spec fn line_seen(la: Seq<LineAttribution>, k: int, cur: int, j: int, w: int) -> bool {
+    (0 <= j < k && j < la.len() && la[j].start_line <= w <= la[j].end_line) || (j == k && 0 <= k < la.len() && la[k].start_line <= w < cur && w <= la[k].end_line)
+}
+/// what must have been carried over so far: (a, x) for every processed unstaged line x of an attribution of author a
+pub open spec fn unc_want(la: Seq<LineAttribution>, k: int, cur: int, us: Seq<u32>, a: String, x: u32) -> bool {
+    exists|j: int| #[trigger] line_seen(la, k, cur, j, x as int) && la[j].author_id == a && seq_has(us, x as int)
+}
+/// what must have been recorded for the commit so far: (a, c) for every processed line w that is not unstaged, whose
+/// commit line number c = w - below(w) is a line the commit added
+pub open spec fn com_want(la: Seq<LineAttribution>, k: int, cur: int, us: Seq<u32>, h: Option<&Vec<LineRange>>, a: String, c: u32) -> bool {
+    exists|j: int, w: int| #[trigger] line_seen(la, k, cur, j, w) && la[j].author_id == a && !seq_has(us, w) && c as int == w - below(us, w) && in_hunks(h, c as int)
+}
+pub open spec fn maps_inv(cm: StdHashMap<String, Vec<u32>>, um: StdHashMap<String, Vec<u32>>, la: Seq<LineAttribution>, k: int, cur: int, us: Seq<u32>, h: Option<&Vec<LineRange>>) -> bool {
+    &&& forall|a: String, c: u32| #![trigger map_mem(cm, a, c)] #![trigger com_want(la, k, cur, us, h, a, c)] map_mem(cm, a, c) <==> com_want(la, k, cur, us, h, a, c)
+    &&& forall|a: String, x: u32| #![trigger map_mem(um, a, x)] #![trigger unc_want(la, k, cur, us, a, x)] map_mem(um, a, x) <==> unc_want(la, k, cur, us, a, x)
+}
+/// every line attribution is a forward range (vstd specifies `a..=b` only for a <= b; in Rust an inverted range is simply empty)
+pub open spec fn attrs_forward(la: Seq<LineAttribution>) -> bool { forall|j: int| 0 <= j < la.len() ==> (#[trigger] la[j]).start_line <= la[j].end_line }
+/// the values a `start..=end` loop still has to produce
+pub open spec fn range_rem(rem: Seq<u32>, start: int, end: int) -> bool {
+    &&& rem.len() == (if start <= end { end - start + 1 } else { 0 })
+    &&& forall|i: int| 0 <= i < rem.len() ==> (#[trigger] rem[i]) == start + i
+}
+/// the subtraction `workdir_line_num - adjustment` cannot underflow: among strictly increasing u32 values fewer than w+1 are below w
+proof fn lemma_cb_bound(s: Seq<u32>, n: int, w: int)
+    requires strictly_inc(s), 0 <= n <= s.len(), 0 <= w,
+    ensures 0 <= cb(s, n, w) <= w, (n > 0 && s[n - 1] < w) ==> cb(s, n, w) <= s[n - 1] + 1,
+    decreases n,
+{
+    if n > 0 {
+        lemma_cb_bound(s, n - 1, w);
+        if s[n - 1] < w && n - 1 > 0 { assert(s[n - 2] < s[n - 1]); }
+    }
+}
+proof fn lemma_seen_step(la: Seq<LineAttribution>, k: int, cur: int, j: int, w: int)
+    requires 0 <= k < la.len(), la[k].start_line <= cur <= la[k].end_line,
+    ensures line_seen(la, k, cur + 1, j, w) <==> (line_seen(la, k, cur, j, w) || (j == k && w == cur)),
+{
+}
+proof fn lemma_unc_step(la: Seq<LineAttribution>, k: int, cur: int, us: Seq<u32>, a: String, x: u32)
+    requires 0 <= k < la.len(), la[k].start_line <= cur <= la[k].end_line,
+    ensures unc_want(la, k, cur + 1, us, a, x) <==> (unc_want(la, k, cur, us, a, x) || (la[k].author_id == a && x as int == cur && seq_has(us, cur))),
+{
+    if unc_want(la, k, cur + 1, us, a, x) {
+        let j = choose|j: int| #[trigger] line_seen(la, k, cur + 1, j, x as int) && la[j].author_id == a && seq_has(us, x as int);
+        lemma_seen_step(la, k, cur, j, x as int);
+        if line_seen(la, k, cur, j, x as int) { assert(line_seen(la, k, cur, j, x as int) && la[j].author_id == a && seq_has(us, x as int)); }
+    }
+    if unc_want(la, k, cur, us, a, x) {
+        let j = choose|j: int| #[trigger] line_seen(la, k, cur, j, x as int) && la[j].author_id == a && seq_has(us, x as int);
+        lemma_seen_step(la, k, cur, j, x as int);
+        assert(line_seen(la, k, cur + 1, j, x as int) && la[j].author_id == a && seq_has(us, x as int));
+    }
+    if la[k].author_id == a && x as int == cur && seq_has(us, cur) {
+        lemma_seen_step(la, k, cur, k, cur);
+        assert(line_seen(la, k, cur + 1, k, x as int) && la[k].author_id == a && seq_has(us, x as int));
+    }
+}
+proof fn lemma_com_step(la: Seq<LineAttribution>, k: int, cur: int, us: Seq<u32>, h: Option<&Vec<LineRange>>, a: String, c: u32)
+    requires 0 <= k < la.len(), la[k].start_line <= cur <= la[k].end_line,
+    ensures com_want(la, k, cur + 1, us, h, a, c) <==> (com_want(la, k, cur, us, h, a, c) || (la[k].author_id == a && !seq_has(us, cur) && c as int == cur - below(us, cur) && in_hunks(h, c as int))),
+{
+    if com_want(la, k, cur + 1, us, h, a, c) {
+        let (j, w) = choose|j: int, w: int| #[trigger] line_seen(la, k, cur + 1, j, w) && la[j].author_id == a && !seq_has(us, w) && c as int == w - below(us, w) && in_hunks(h, c as int);
+        lemma_seen_step(la, k, cur, j, w);
+        if line_seen(la, k, cur, j, w) { assert(line_seen(la, k, cur, j, w) && la[j].author_id == a && !seq_has(us, w) && c as int == w - below(us, w) && in_hunks(h, c as int)); }
+    }
+    if com_want(la, k, cur, us, h, a, c) {
+        let (j, w) = choose|j: int, w: int| #[trigger] line_seen(la, k, cur, j, w) && la[j].author_id == a && !seq_has(us, w) && c as int == w - below(us, w) && in_hunks(h, c as int);
+        lemma_seen_step(la, k, cur, j, w);
+        assert(line_seen(la, k, cur + 1, j, w) && la[j].author_id == a && !seq_has(us, w) && c as int == w - below(us, w) && in_hunks(h, c as int));
+    }
+    if la[k].author_id == a && !seq_has(us, cur) && c as int == cur - below(us, cur) && in_hunks(h, c as int) {
+        lemma_seen_step(la, k, cur, k, cur);
+        assert(line_seen(la, k, cur + 1, k, cur) && la[k].author_id == a && !seq_has(us, cur) && c as int == cur - below(us, cur) && in_hunks(h, c as int));
+    }
+}
+/// entering attribution k: nothing of it has been seen, whether the cursor is written as 0 or as its first line
+proof fn lemma_enter(la: Seq<LineAttribution>, k: int, us: Seq<u32>, h: Option<&Vec<LineRange>>, a: String, x: u32)
+    requires 0 <= k < la.len(),
+    ensures
+        unc_want(la, k, 0, us, a, x) <==> unc_want(la, k, la[k].start_line as int, us, a, x),
+        com_want(la, k, 0, us, h, a, x) <==> com_want(la, k, la[k].start_line as int, us, h, a, x),
+{
+    let s = la[k].start_line as int;
+    assert forall|j: int, w: int| line_seen(la, k, 0, j, w) <==> line_seen(la, k, s, j, w) by { }
+    if unc_want(la, k, 0, us, a, x) { let j = choose|j: int| #[trigger] line_seen(la, k, 0, j, x as int) && la[j].author_id == a && seq_has(us, x as int); assert(line_seen(la, k, s, j, x as int)); }
+    if unc_want(la, k, s, us, a, x) { let j = choose|j: int| #[trigger] line_seen(la, k, s, j, x as int) && la[j].author_id == a && seq_has(us, x as int); assert(line_seen(la, k, 0, j, x as int)); }
+    if com_want(la, k, 0, us, h, a, x) { let (j, w) = choose|j: int, w: int| #[trigger] line_seen(la, k, 0, j, w) && la[j].author_id == a && !seq_has(us, w) && x as int == w - below(us, w) && in_hunks(h, x as int); assert(line_seen(la, k, s, j, w)); }
+    if com_want(la, k, s, us, h, a, x) { let (j, w) = choose|j: int, w: int| #[trigger] line_seen(la, k, s, j, w) && la[j].author_id == a && !seq_has(us, w) && x as int == w - below(us, w) && in_hunks(h, x as int); assert(line_seen(la, k, 0, j, w)); }
+}
+/// leaving attribution k with all of its lines processed is the state "k + 1 attributions done"
+proof fn lemma_leave(la: Seq<LineAttribution>, k: int, cur: int, us: Seq<u32>, h: Option<&Vec<LineRange>>, a: String, x: u32)
+    requires 0 <= k < la.len(), cur == (if la[k].start_line <= la[k].end_line { la[k].end_line + 1 } else { la[k].start_line as int }),
+    ensures
+        unc_want(la, k, cur, us, a, x) <==> unc_want(la, k + 1, 0, us, a, x),
+        com_want(la, k, cur, us, h, a, x) <==> com_want(la, k + 1, 0, us, h, a, x),
+{
+    assert forall|j: int, w: int| line_seen(la, k, cur, j, w) <==> line_seen(la, k + 1, 0, j, w) by { }
+    if unc_want(la, k, cur, us, a, x) { let j = choose|j: int| #[trigger] line_seen(la, k, cur, j, x as int) && la[j].author_id == a && seq_has(us, x as int); assert(line_seen(la, k + 1, 0, j, x as int)); }
+    if unc_want(la, k + 1, 0, us, a, x) { let j = choose|j: int| #[trigger] line_seen(la, k + 1, 0, j, x as int) && la[j].author_id == a && seq_has(us, x as int); assert(line_seen(la, k, cur, j, x as int)); }
+    if com_want(la, k, cur, us, h, a, x) { let (j, w) = choose|j: int, w: int| #[trigger] line_seen(la, k, cur, j, w) && la[j].author_id == a && !seq_has(us, w) && x as int == w - below(us, w) && in_hunks(h, x as int); assert(line_seen(la, k + 1, 0, j, w)); }
+    if com_want(la, k + 1, 0, us, h, a, x) { let (j, w) = choose|j: int, w: int| #[trigger] line_seen(la, k + 1, 0, j, w) && la[j].author_id == a && !seq_has(us, w) && x as int == w - below(us, w) && in_hunks(h, x as int); assert(line_seen(la, k, cur, j, w)); }
+}
+
+// ---------------------------------------------------------------- O1 stubs of region split_classify (trusted std behaviour)
+/// `committed_hunks.get(file_path)`: some entry of the map or None (which one is irrelevant to the split)
+#[verifier::external_body]
+fn opq_hunks_of<'a>(m: &'a StdHashMap<String, Vec<LineRange>>, k: &String) -> (r: Option<&'a Vec<LineRange>>)
+{ unimplemented!() }
+/// `unstaged_lines.binary_search(&w).is_ok()` on a sorted slice: whether w occurs
+#[verifier::external_body]
+fn opq_contains_sorted(v: &Vec<u32>, w: u32) -> (r: bool)
+    requires strictly_inc(v@),
+    ensures r == seq_has(v@, w as int),
+{ unimplemented!() }
+/// `unstaged_lines.iter().filter(|&&l| l < w).count() as u32`: the number of entries below w
+#[verifier::external_body]
+fn opq_count_below(v: &Vec<u32>, w: u32) -> (r: u32)
+    requires v@.len() <= u32::MAX,
+    ensures r as int == below(v@, w as int),
+{ unimplemented!() }
+/// `hunks.iter().any(|hunk| hunk.contains(c))`: LineRange::contains is proved in unit linerange (c is a line of the range)
+#[verifier::external_body]
+fn opq_any_contains(hunks: &Vec<LineRange>, c: u32) -> (r: bool)
+    ensures r == ranges_have(hunks@, c as int),
+{ unimplemented!() }
+/// `map.entry(key.clone()).or_default().push(v)`: afterwards exactly (key, v) has been added to what the map records
+#[verifier::external_body]
+fn opq_map_push(m: &mut StdHashMap<String, Vec<u32>>, key: &String, v: u32)
+    ensures forall|a: String, x: u32| #![trigger map_mem(*final(m), a, x)] map_mem(*final(m), a, x) <==> (map_mem(*old(m), a, x) || (a == *key && x == v)),
+{ unimplemented!() }
+/// `referenced_prompts.insert(key.clone())`
+#[verifier::external_body]
+fn opq_set_insert(s: &mut HashSet<String>, key: &String)
+{ unimplemented!() }
+
+//#item file=src/authorship/virtual_attribution.rs kind=region name=split_classify in=to_authorship_log_and_initial_working_log impl="VirtualAttributions" from="let mut committed_lines_map: StdHashMap<String, Vec<u32>> = StdHashMap::new();" to="// Add committed attributions to authorship log" to_exclusive=yes opaque='[{"expr": "committed_hunks.get(file_path)", "call": "opq_hunks_of(committed_hunks, file_path)"}, {"expr": "unstaged_lines.binary_search(&workdir_line_num).is_ok()", "call": "opq_contains_sorted(&unstaged_lines, workdir_line_num)"}, {"expr": "uncommitted_lines_map\n.entry(line_attr.author_id.clone())\n.or_default()\n.push(workdir_line_num)", "call": "opq_map_push(&mut uncommitted_lines_map, &line_attr.author_id, workdir_line_num)"}, {"expr": "referenced_prompts.insert(line_attr.author_id.clone())", "call": "opq_set_insert(&mut referenced_prompts, &line_attr.author_id)"}, {"expr": "unstaged_lines\n.iter()\n.filter(|&&l| l < workdir_line_num)\n.count() as u32", "call": "opq_count_below(&unstaged_lines, workdir_line_num)"}, {"expr": "hunks.iter().any(|hunk| hunk.contains(commit_line_num))", "call": "opq_any_contains(hunks, commit_line_num)"}, {"expr": "committed_lines_map\n.entry(line_attr.author_id.clone())\n.or_default()\n.push(commit_line_num)", "call": "opq_map_push(&mut committed_lines_map, &line_attr.author_id, commit_line_num)"}]'
+//@ fn region_split_classify<'a>(line_attrs: &Vec<LineAttribution>, unstaged_lines: Vec<u32>, committed_hunks: &'a StdHashMap<String, Vec<LineRange>>, file_path: &String, mut referenced_prompts: HashSet<String>) -> (r_: (StdHashMap<String, Vec<u32>>, StdHashMap<String, Vec<u32>>, Option<&'a Vec<LineRange>>, HashSet<String>))
+//@     requires strictly_inc(unstaged_lines@), unstaged_lines@.len() <= u32::MAX, attrs_forward(line_attrs@),
+//@     ensures
+//@         // r_ = (committed_lines_map, uncommitted_lines_map, file_committed_hunks, referenced_prompts)
+//@         // The three-way split of every attributed working-tree line w of every line attribution (author a):
+//@         //   w is an unstaged line                      -> (a, w) is carried over (uncommitted), in working-tree coordinates
+//@         //   otherwise c = w - #(unstaged lines below w) -> (a, c) is recorded for the commit iff c is a line the commit added
+//@         //   otherwise                                  -> dropped (pre-existing line)
+//@         // and nothing else is recorded on either side.
+//@         maps_inv(r_.0, r_.1, line_attrs@, line_attrs@.len() as int, 0, unstaged_lines@, r_.2),
+//@ {
+//@     let ghost la = line_attrs@; let ghost us = unstaged_lines@;
+            let mut committed_lines_map: StdHashMap<String, Vec<u32>> = StdHashMap::new();
+            let mut uncommitted_lines_map: StdHashMap<String, Vec<u32>> = StdHashMap::new();
+
+            // Get the committed hunks for this file (if any) - these are in commit coordinates
+            let file_committed_hunks = opq_hunks_of(committed_hunks, file_path);
+
+            for line_attr in it_0: line_attrs
+            //@     invariant
+            //@         la == line_attrs@, us == unstaged_lines@, strictly_inc(us), us.len() <= u32::MAX, attrs_forward(la),
+            //@         it_0.snapshot@.remaining().len() == la.len(),
+            //@         forall|i: int| 0 <= i < la.len() ==> *(#[trigger] it_0.snapshot@.remaining()[i]) == la[i],
+            //@         maps_inv(committed_lines_map, uncommitted_lines_map, la, it_0.index@, 0, us, file_committed_hunks),
+            {
+                //@ let ghost k = it_0.index@;
+                //@ proof {
+                //@     assert(*line_attr == la[k]);
+                //@     assert forall|a: String, x: u32| #![trigger map_mem(uncommitted_lines_map, a, x)] #![trigger unc_want(la, k, la[k].start_line as int, us, a, x)] map_mem(uncommitted_lines_map, a, x) <==> unc_want(la, k, la[k].start_line as int, us, a, x) by { lemma_enter(la, k, us, file_committed_hunks, a, x); }
+                //@     assert forall|a: String, c: u32| #![trigger map_mem(committed_lines_map, a, c)] #![trigger com_want(la, k, la[k].start_line as int, us, file_committed_hunks, a, c)] map_mem(committed_lines_map, a, c) <==> com_want(la, k, la[k].start_line as int, us, file_committed_hunks, a, c) by { lemma_enter(la, k, us, file_committed_hunks, a, c); }
+                //@ }
+                //@ let ghost mut cur: int = la[k].start_line as int;
+                // Check each line individually
+                for workdir_line_num in it_1: line_attr.start_line..=line_attr.end_line
+                //@     invariant
+                //@         la == line_attrs@, us == unstaged_lines@, strictly_inc(us), us.len() <= u32::MAX, attrs_forward(la), 0 <= k < la.len(), *line_attr == la[k],
+                //@         range_rem(it_1.snapshot@.remaining(), la[k].start_line as int, la[k].end_line as int),
+                //@         cur == la[k].start_line + it_1.index@,
+                //@         maps_inv(committed_lines_map, uncommitted_lines_map, la, k, cur, us, file_committed_hunks),
+                {
+                    //@ let ghost w = workdir_line_num as int;
+                    //@ let ghost cm0 = committed_lines_map; let ghost um0 = uncommitted_lines_map;
+                    //@ proof { assert(w == cur); assert(la[k].start_line <= w <= la[k].end_line); lemma_cb_bound(us, us.len() as int, w); }
+                    // Check if this line is unstaged (in working directory but not in commit)
+                    let is_unstaged = opq_contains_sorted(&unstaged_lines, workdir_line_num);
+
+                    if is_unstaged {
+                        // Line is unstaged, mark as uncommitted
+                        opq_map_push(&mut uncommitted_lines_map, &line_attr.author_id, workdir_line_num);
+                        opq_set_insert(&mut referenced_prompts, &line_attr.author_id);
+                    } else {
+                        // Convert working directory line number to commit line number
+                        // by subtracting the count of unstaged lines before this line
+                        let adjustment = opq_count_below(&unstaged_lines, workdir_line_num);
+                        let commit_line_num = workdir_line_num - adjustment;
+
+                        // Check if this commit line number is in any committed hunk
+                        let is_committed = if let Some(hunks) = file_committed_hunks {
+                            opq_any_contains(hunks, commit_line_num)
+                        } else {
+                            false
+                        };
+
+                        if is_committed {
+                            // Line was committed in this commit (use commit coordinates)
+                            opq_map_push(&mut committed_lines_map, &line_attr.author_id, commit_line_num);
+                        }
+                        // Note: Lines that are neither unstaged nor in committed_hunks are lines that
+                        // already existed in the parent commit. They are discarded (not added to uncommitted).
+                    }
+                    //@ proof {
+                    //@     assert forall|a: String, x: u32| #![trigger map_mem(uncommitted_lines_map, a, x)] #![trigger unc_want(la, k, w + 1, us, a, x)] map_mem(uncommitted_lines_map, a, x) <==> unc_want(la, k, w + 1, us, a, x) by {
+                    //@         lemma_unc_step(la, k, w, us, a, x);
+                    //@         assert(map_mem(um0, a, x) <==> unc_want(la, k, w, us, a, x));
+                    //@     }
+                    //@     assert forall|a: String, c: u32| #![trigger map_mem(committed_lines_map, a, c)] #![trigger com_want(la, k, w + 1, us, file_committed_hunks, a, c)] map_mem(committed_lines_map, a, c) <==> com_want(la, k, w + 1, us, file_committed_hunks, a, c) by {
+                    //@         lemma_com_step(la, k, w, us, file_committed_hunks, a, c);
+                    //@         assert(map_mem(cm0, a, c) <==> com_want(la, k, w, us, file_committed_hunks, a, c));
+                    //@     }
+                    //@     cur = cur + 1;
+                    //@ }
+                }
+                //@ proof {
+                //@     assert forall|a: String, x: u32| #![trigger map_mem(uncommitted_lines_map, a, x)] #![trigger unc_want(la, k + 1, 0, us, a, x)] map_mem(uncommitted_lines_map, a, x) <==> unc_want(la, k + 1, 0, us, a, x) by { lemma_leave(la, k, cur, us, file_committed_hunks, a, x); }
+                //@     assert forall|a: String, c: u32| #![trigger map_mem(committed_lines_map, a, c)] #![trigger com_want(la, k + 1, 0, us, file_committed_hunks, a, c)] map_mem(committed_lines_map, a, c) <==> com_want(la, k + 1, 0, us, file_committed_hunks, a, c) by { lemma_leave(la, k, cur, us, file_committed_hunks, a, c); }
+                //@ }
+            }
+//@     (committed_lines_map, uncommitted_lines_map, file_committed_hunks, referenced_prompts)
 //@ }
 //#end
 
